@@ -30,6 +30,7 @@ type Contract struct {
 	Sweep    bool   // generate safety obligations (bounds, nil, div, overflow)
 	Pure     bool   // declared side-effect free
 	Requires []*Clause
+	Captured []*Clause // closures: facts about by-value captured variables; assumed on entry, demanded where the closure is made
 	Ensures  []*Clause
 	Defines  []*Clause // definitional ghost links: assumed at call sites, not checked in the body
 	Valid    []*Clause // validity of the receiver/inputs (object invariant): assumed on entry, not demanded from callers, reported as an assumption
@@ -433,6 +434,14 @@ func (cs *ContractSet) parseFile(path, pkg string) error {
 			lastClause = c
 			pending = append(pending, c)
 			cur.Valid = append(cur.Valid, c)
+		case "captured":
+			if cur == nil || curRule != nil {
+				return fail("captured outside func")
+			}
+			c, _ := mkClause(rest)
+			lastClause = c
+			pending = append(pending, c)
+			cur.Captured = append(cur.Captured, c)
 		case "requires", "ensures", "defines":
 			c, _ := mkClause(rest)
 			lastClause = c
